@@ -13,6 +13,9 @@ for p in selftest/mutants/*${pat}*.patch; do
   out=$(bin/bfvc check --property $prop --repo "$w" --evidence-dir "$w/.evidence" 2>&1); rc=$?
   git -C /repo worktree remove --force "$w"
   n=$((n+1))
+  case "$name" in *-neg-*)
+    if [ $rc -eq 0 ]; then echo "SELFTEST $name ($prop): negative control stayed green"; else echo "SELFTEST $name ($prop): FALSE ALARM on harmless change (rc=$rc)"; echo "$out" | tail -3; fail=1; fi
+    continue;; esac
   if [ $rc -eq 1 ] && echo "$out" | grep -q "^VIOLATION property=$prop"; then
     echo "SELFTEST $name ($prop): caught: $(echo "$out" | grep -m1 '^FAILED-OBLIGATION' | cut -c1-160)"
   else
